@@ -577,7 +577,39 @@ def P17(m, R):
                 ok = ('.%s' % attr) in t and ('.%s' % ro.TABLE) in t and (('.%s' % ro.START) in t or ('.%s' % ro.STOP) in t) and 'not ' not in t
                 R.check(ok, f, body[0], 'all(...) over every marker\'s .%s' % attr, 'all() expression is %s' % short(expr), construct=cons)
             else:
-                R.undecided(f, f.node, 'for-all idiom not recognised', construct=cons)
+                # the verdict memoised on the string itself: a memo on a mutable object is right only if every method that changes the table resets it
+                memo = sorted({n.attr for n in f.walk() if isinstance(n, ast.Attribute) and isinstance(n.ctx, ast.Store) and is_name(n.value, f.self_name)
+                               and n.attr not in (ro.TABLE, ro.TEXT)})
+                stale, stale_foreign = None, False
+                if memo:
+                    A_ = m.cls('AnsiString')
+                    for g in A_.methods.values():
+                        if g is f or g.name in ('__init__',):
+                            continue
+                        writes_table = False
+                        for n in g.walk():
+                            if isinstance(n, (ast.Subscript, ast.Attribute)) and isinstance(n.ctx, (ast.Store, ast.Del)):
+                                x = n.value if isinstance(n, ast.Subscript) else n
+                                while isinstance(x, ast.Subscript):
+                                    x = x.value
+                                if isinstance(x, ast.Attribute) and x.attr == ro.TABLE and is_name(x.value, g.self_name):
+                                    writes_table = True
+                            if isinstance(n, ast.Call) and isinstance(n.func, ast.Attribute) and n.func.attr in (
+                                    'extend', 'append', 'insert', 'pop', 'clear', 'update', 'insert_settings', 'remove') and \
+                                    ('%s.%s' % (g.self_name, ro.TABLE)) in norm(n.func.value):
+                                writes_table = True
+                        resets = any(isinstance(n, ast.Attribute) and isinstance(n.ctx, (ast.Store, ast.Del)) and n.attr in memo and is_name(n.value, g.self_name)
+                                     for n in g.walk())
+                        if writes_table and not resets:
+                            # settings of another string taken over (a.TABLE read for a not self) is the clearest case; a method that only re-keys points is not one
+                            foreign = any(isinstance(n, ast.Attribute) and n.attr == ro.TABLE and isinstance(n.value, ast.Name) and n.value.id != g.self_name for n in g.walk())
+                            if stale is None or (foreign and not stale_foreign):
+                                stale, stale_foreign = g, foreign
+                if memo and stale is not None:
+                    R.viol(stale, stale.node, '%s keeps its verdict in self.%s, and %s changes the table of settings without resetting it: after that call the stored verdict '
+                                              'answers for settings that are no longer (or not yet) there' % (f.qual, memo[0], stale.qual), construct=cons)
+                else:
+                    R.undecided(f, f.node, 'for-all idiom not recognised', construct=cons)
             continue
         outer = body[0]
         if norm(outer.iter) not in ('%s.%s.values()' % (f.self_name, ro.TABLE),):
